@@ -121,9 +121,21 @@ def check_params(cls, C, d):
                        config_class=kind(ref_err), set_config_parameters=kind(got_err))
     if ref_err is not None:
         return OK
-    if not cfg_equal(o.configuration, ref):
+    if ref_err is None and not cfg_equal(o.configuration, ref):
         return Failure("configuration-differs-from-Config(**d)", params=d,
                        got=type(o.configuration).__name__, expected=type(ref).__name__)
+    # the same on an instance that already holds a configuration (constructed with one / configured before)
+    o3 = cls(C(**test_config(cls)))
+    try:
+        o3.set_config_parameters(dict(d))
+        err3 = None
+    except Exception as e:
+        err3 = e
+    if kind(ref_err) != kind(err3):
+        return Failure("set_config_parameters-on-a-configured-instance-disagrees-with-the-config-class-on-validity",
+                       params=d, config_class=kind(ref_err), set_config_parameters=kind(err3))
+    if ref_err is None and not cfg_equal(o3.configuration, ref):
+        return Failure("configuration-of-a-re-configured-instance-differs-from-Config(**d)", params=d)
     o2 = cls(C(**d))
     bad = state_equal(o, o2)
     if bad is not None:
